@@ -9,6 +9,8 @@ import (
 	"fmt"
 	"math/big"
 	"math/rand"
+	"os"
+	"path/filepath"
 	"reflect"
 	"sort"
 
@@ -22,10 +24,18 @@ type replayIn struct {
 	T            string   `json:"t"`
 	Texts        []string `json:"texts_hex,omitempty"` // JSON texts or binary forms
 	Bin          bool     `json:"bin,omitempty"`
+	Bins         []bool   `json:"bins,omitempty"` // per text, for pairs of mixed form
 	ExpectOK     bool     `json:"expect_ok,omitempty"`
 	ExpectVerify bool     `json:"expect_verify,omitempty"`
 	JSONTrip     bool     `json:"json_trip,omitempty"`
 	What         string   `json:"what,omitempty"`
+}
+
+func (in *replayIn) binAt(i int) bool {
+	if i < len(in.Bins) {
+		return in.Bins[i]
+	}
+	return in.Bin
 }
 
 func hx(b []byte) string { return hex.EncodeToString(b) }
@@ -101,6 +111,13 @@ func oracleStable(in []byte, bin, expectOK, expectVerify, jsonTrip bool) string 
 			}
 			o3 := observe(tx3)
 			if d := sameObservables(o0, o3); d != "" {
+				if !o0.Raw && o0.Vals.DataType != nil && hasSpecial(*o0.Vals.DataType) && !bytes.Equal(o0.ID, o3.ID) {
+					o3id := o3.ID
+					o3.ID = o0.ID
+					if sameObservables(o0, o3) == "" {
+						return fmt.Sprintf("%s: round %d after MarshalJSON/NewTransactionFromJSON: id %x became %x", mechF2, i, o0.ID, o3id)
+					}
+				}
 				return fmt.Sprintf("round %d after MarshalJSON/NewTransactionFromJSON: %s", i, d)
 			}
 			if verifyOK(tx3) != v0 {
@@ -140,6 +157,11 @@ func oracleMutation(a, b []byte, bin bool, what string) string {
 		return "" // rejected outright: fine
 	}
 	if bytes.Equal(ta.ID(), tb.ID()) {
+		if oa, ob := observe(ta), observe(tb); oa != nil && ob != nil {
+			if _, mech := classify(oa, ob); mech != "" {
+				return fmt.Sprintf("%s: changing %s keeps the id %x", mech, what, ta.ID())
+			}
+		}
 		return fmt.Sprintf("changing %s keeps the id %x", what, ta.ID())
 	}
 	if verifyOK(tb) {
@@ -451,6 +473,9 @@ func gen(c *hxlib.Ctx) {
 	_ = wallets
 	w1, w2 := newWallet(r), newWallet(r)
 
+	// ---- 0. committed corpus (known findings) ----
+	genCorpus(c)
+
 	// ---- A. SerializeValue on random trees (all JSON kinds) ----
 	for i := 0; i < c.N(250); i++ {
 		v := randValue(r, 3, i%3)
@@ -636,7 +661,6 @@ func gen(c *hxlib.Ctx) {
 		}
 	}
 
-	findings(c, w1, r)
 
 	// canary: a wrong id
 	c.Emit(hxlib.Case{Kind: "canary", Canary: true, Coq: "(CSer (JList [JStr [46]]) (Some [91;46;93]))"})
@@ -650,13 +674,15 @@ func observeBytes(bs []byte) *obsT {
 	return observe(tx)
 }
 
-// findings re-checks, on every run, the discrepancies between the code and the
-// property that were found while building the model; they are reported as
-// notes (see docs/notes/C12.md), not as violations.
-func findings(c *hxlib.Ctx, w interface {
-	Sign([]byte) ([]byte, error)
-}, r *rand.Rand) {
-	w1 := newWallet(rand.New(rand.NewSource(7)))
+// mkCorpus writes the corpus files of the known findings (run once:
+// `hx-c12 mkcorpus DIR`); the wallet is derived from a fixed seed.
+func mkCorpus(dir string) {
+	r := rand.New(rand.NewSource(7))
+	w1 := newWallet(r)
+	write := func(name, what string, in replayIn) {
+		b, _ := json.MarshalIndent(map[string]interface{}{"property": "C12", "what": what, "input": in}, "", " ")
+		os.WriteFile(filepath.Join(dir, name), append(b, '\n'), 0o644)
+	}
 	mk := func(data string) *txSpec {
 		var d interface{}
 		json.Unmarshal([]byte(data), &d)
@@ -664,17 +690,16 @@ func findings(c *hxlib.Ctx, w interface {
 		return &txSpec{W: w1, From: append([]byte{}, w1.Address().Bytes()...), To: make([]byte, 21),
 			StepLimit: big.NewInt(100000), Timestamp: 1, DataType: &dt, HasData: true, Data: d}
 	}
-	// F1: leading empty strings of a list leave no trace in the id
-	a, b := mk(`["","a"]`), mk(`["a"]`)
-	ma, mb := a.render(fieldStyle{}, r), b.render(fieldStyle{}, r)
-	signJSONMap(ma, w1)
-	mb["signature"] = ma["signature"]
-	ta, _ := parse([]byte(encJSON(ma, r, textStyle{})), false)
-	tb, _ := parse([]byte(encJSON(mb, r, textStyle{})), false)
-	if ta != nil && tb != nil && bytes.Equal(ta.ID(), tb.ID()) && verifyOK(ta) && verifyOK(tb) {
-		c.Note("FINDING F1 (reproduced): data [\"\",\"a\"] and [\"a\"] give the same id %x and one signature verifies both (serializeList tests buf.Len() instead of the index)", ta.ID())
+	pair := func(d1, d2 string) []string {
+		a, b := mk(d1), mk(d2)
+		ma, mb := a.render(fieldStyle{}, r), b.render(fieldStyle{}, r)
+		signJSONMap(ma, w1)
+		mb["signature"] = ma["signature"]
+		return []string{hx([]byte(encJSON(ma, r, textStyle{}))), hx([]byte(encJSON(mb, r, textStyle{})))}
 	}
-	// F2: the struct hash does not escape dataType: a binary transaction and a JSON one collide
+	write("f1_list_leading_empty_1.json", "F1: data [\"\",\"a\"] and [\"a\"] share an id and a signature (serializeList tests buf.Len() > 0)",
+		replayIn{T: "collide", Texts: pair(`["","a"]`, `["a"]`)})
+	// F2/F3: the struct hash writes dataType unescaped
 	dt := "message.extra.b"
 	s := &txSpec{W: w1, From: append([]byte{}, w1.Address().Bytes()...), To: make([]byte, 21),
 		StepLimit: big.NewInt(100000), Timestamp: 1, DataType: &dt}
@@ -685,19 +710,10 @@ func findings(c *hxlib.Ctx, w interface {
 		Extra: map[string]interface{}{"extra": "b"}}
 	mj := j.render(fieldStyle{}, r)
 	mj["signature"] = base64Encode(sig)
-	tbin, _ := parse(bin, true)
-	tjs, _ := parse([]byte(encJSON(mj, r, textStyle{})), false)
-	if tbin != nil && tjs != nil && bytes.Equal(tbin.ID(), tjs.ID()) && verifyOK(tbin) && verifyOK(tjs) {
-		c.Note("FINDING F2 (reproduced): binary transaction with dataType %q and JSON transaction with dataType \"message\" plus field extra=\"b\" share the id %x and the signature (transactionV3Data.calcHash writes dataType unescaped)", dt, tbin.ID())
-	}
-	// F3: a binary transaction whose dataType has a special character changes id when re-submitted as its own JSON
-	if tbin != nil {
-		if js, err := marshalTx(tbin); err == nil {
-			if t3, err := parse(js, false); err == nil && !bytes.Equal(t3.ID(), tbin.ID()) {
-				c.Note("FINDING F3 (reproduced): binary transaction with dataType %q has id %x, its own MarshalJSON parsed back has id %x", dt, tbin.ID(), t3.ID())
-			}
-		}
-	}
+	write("f2_datatype_unescaped.json", "F2/F3: stored transaction with dataType \"message.extra.b\" and JSON transaction with dataType \"message\" plus \"extra\":\"b\" share id and signature; the stored one changes id through its own JSON form",
+		replayIn{T: "collide", Texts: []string{hx(bin), hx([]byte(encJSON(mj, r, textStyle{})))}, Bins: []bool{true, false}})
+	write("f4_number.json", "number inside data hashed as the decimal text of int64(float64): {\"a\":1.5} and {\"a\":\"1\"} share an id and a signature",
+		replayIn{T: "collide", Texts: pair(`{"a":1.5}`, `{"a":"1"}`)})
 }
 
 func replay(raw json.RawMessage) string {
@@ -725,11 +741,20 @@ func replay(raw json.RawMessage) string {
 		return oracleVariants(texts)
 	case "mut":
 		return oracleMutation(texts[0], texts[1], in.Bin, in.What)
+	case "collide":
+		if len(texts) < 2 {
+			return "bad collide input"
+		}
+		return oracleCollision(texts[0], in.binAt(0), texts[1], in.binAt(1))
 	}
 	return "unknown case type " + in.T
 }
 
 func main() {
+	if len(os.Args) == 3 && os.Args[1] == "mkcorpus" {
+		mkCorpus(os.Args[2])
+		return
+	}
 	hxlib.Main(hxlib.Spec{
 		ID: "C12",
 		Rule: "random v3 transactions (optional value/nid/nonce/dataType/data, nested data with the characters \\ { } [ ] . , empty strings and keys, null, and in a sixth of the cases numbers/bools), signed by a real wallet over the harness's own reference pre-image; submitted (B) as JSON in canonical, hex-case/leading-zero, address-case/short/0x, extra-field, special-dataType and decimal variants with shuffled keys, white space and \\u escapes, (D) as binary forms built by the harness (canonical, 20-byte addresses, sign-extended integers, re-spaced data text, special dataType); each goes through Bytes/NewTransaction/MarshalJSON/NewTransactionFromJSON three times; (A) SerializeValue on random trees of every JSON kind; (C) fixed adversarial data pairs that collide when an escape or a marker is dropped; one-field mutations with the old signature for JSON and binary forms; non-trivial = every case; distinct = distinct Coq term / input",
